@@ -139,3 +139,25 @@ Print Assumptions C10_wrong_stitch_side_refuted.
 (* non-vacuity: the D14 history (query, mutate, query next door, advance past the first expiry,
    query again) meets the hypotheses and the bound is attained *)
 Example C10_staleness_nonvacuous : _ := CacheStale.d14_stale_but_young.
+
+(* ---- tie C (extended): statements about the Gallina translation of the SOURCE TEXT, regenerated from
+   /repo on every run (Gen/Source.v); external calls are function parameters of the generated definitions ---- *)
+From CG Require Import Model.Loop Gen.Source Proofs.GenEq3.
+
+(* CachedTimeline._evict_expired (the heap loop) on every state satisfying the heap invariant *)
+Theorem C10_source_evict_is_model : forall t h fuel cv sk,
+  (length h <= fuel)%nat -> Permutation.Permutation (map h_cov h) cv ->
+  g_cache_evict_expired fuel t h cv sk = RDone (evict_go t h cv sk).
+Proof. exact g_cache_evict_expired_eq. Qed.
+Print Assumptions C10_source_evict_is_model.
+
+(* ... so "a segment survives eviction iff it was fetched less than ttl ago" holds of the code text *)
+Theorem C10_source_fresh_segments_only : forall ttl t s fuel,
+  heap_inv ttl s -> (length (heap s) <= fuel)%nat ->
+  exists h1 cv1 sk1,
+    g_cache_evict_expired fuel t (heap s) (cover s) (sink s) = RDone (h1, cv1, sk1) /\
+    (forall c, In c cv1 -> In c (cover s) /\ t < cv_t c + ttl) /\
+    (forall c, In c (cover s) -> ~ In c cv1 -> cv_t c + ttl <= t) /\
+    (forall c, In c (cover s) -> (In c cv1 <-> t < cv_t c + ttl)).
+Proof. exact src_evict_fresh_only. Qed.
+Print Assumptions C10_source_fresh_segments_only.
